@@ -3079,6 +3079,11 @@ event_active_nolock_(struct event *ev, int res, short ncalls)
 			EVTHREAD_COND_WAIT(base->current_event_cond, base->th_base_lock);
 		}
 #endif
+		/* If we are inside this event's callback loop, the calls being
+		 * scheduled now replace the ones still outstanding; stop the
+		 * running loop instead of letting it lose track of ev. */
+		if (ev->ev_ncalls && ev->ev_pncalls)
+			*ev->ev_pncalls = 0;
 		ev->ev_ncalls = ncalls;
 		ev->ev_pncalls = NULL;
 	}
